@@ -961,6 +961,26 @@ fn range_cases(c: &mut Ctx, m: &'static Merchant) {
 }
 
 pub fn run(c: &mut Ctx) {
+    // a prover that starts its challenge with ChallengeBuilder::new() and a verifier that starts with
+    // ChallengeBuilder::default() (or the other way round) must agree
+    c.case("constructors/new-vs-default", |c| {
+        use zkchannels_crypto::pedersen::PedersenParameters;
+        use zkchannels_crypto::proofs::CommitmentProofBuilder;
+        let mut rng = c.rng("constructors/new-vs-default");
+        for k in 0..c.tier.pick(6, 60) {
+            c.eval();
+            c.distinct(&format!("constructors/{}", k));
+            let params = PedersenParameters::<G1Projective, 3>::new(&mut rng);
+            let msg = Message::<3>::random(&mut rng);
+            let b = CommitmentProofBuilder::generate_proof_commitments(&mut rng, msg, &[None; 3], &params);
+            let prover = ChallengeBuilder::new().with(&b).with(&params).finish();
+            let proof = b.generate_proof_response(prover);
+            let verifier = ChallengeBuilder::default().with(&proof).with(&params).finish();
+            if prover.to_scalar() != verifier.to_scalar() || !proof.verify_knowledge_of_opening(&params, verifier) {
+                c.violation("C10 honest-proof-fails constructors=prover-new-verifier-default", json!({"k": k}));
+            }
+        }
+    });
     c.note(
         "rule",
         json!("basic: for N in {1,2,3,5,8,13} x {CommitmentProof<G1>, CommitmentProof<G2>, SignatureProof, SignatureRequestProof} x message variants (every entry 0 / 1 / q-1 / small / random, then rotating mixtures) x every subset of slots with caller-chosen commitment scalars (0, q-1, random) for N<=5 and sampled subsets for N=8,13: builder challenge == proof challenge, proof verifies, r_i == c*m_i + cs_i on every slot. patterns: partial opening, equality, public addition, public product, secret sum inside one proof and across 2-3 proofs of every ordered type pair, across proofs of different lengths, four proofs sharing all scalars, and a four-proof chain with a range constraint under one challenge; shared / public values from the five classes. range: values {0,1,128^k-1,128^k (k=1..8),2^63-1,random} linked to a slot of every proof type. Distinct = distinct (family, types, N, value classes, subset mask or slot)."),
